@@ -9,7 +9,6 @@ import (
 	"path/filepath"
 	"sort"
 	"strings"
-	"testing"
 	"testing/synctest"
 	"time"
 
@@ -479,18 +478,7 @@ func dhcpShape(ops []dop) string {
 }
 
 func runDHCPHistory(c *wk.Ctx, d *dhcpRun) {
-	func() {
-		defer func() {
-			if rec := recover(); rec != nil {
-				pi := wk.Capture(rec)
-				if strings.Contains(pi.Value, "HARNESS BUG") {
-					panic(rec)
-				}
-				c.ViolP("C09", "bubble:"+strings.SplitN(pi.Value, ":", 2)[0], pi.Value, map[string]any{"index": d.idx})
-			}
-		}()
-		synctest.Test(theT, func(t *testing.T) { d.history() })
-	}()
+	runBubble(c, d.idx, func() { d.history() })
 }
 
 func runDHCP(c *wk.Ctx) {
